@@ -621,9 +621,13 @@ int main(int argc, char *argv[])
       command.rtrim();
     }
 
-    if (is_command_valid(command, arg) == false) { continue; }
-
     bool has_arg = arg.len() != 0;
+
+    // Lines typed in assembler mode are source code, not commands.
+    if (in_code == false && is_command_valid(command, arg) == false)
+    {
+      continue;
+    }
 
     // Assembler mode.
     if (in_code)
@@ -654,7 +658,15 @@ int main(int argc, char *argv[])
       }
         else
       {
+        // Put the line back together, it was split at the first space.
         code += command.value();
+
+        if (has_arg)
+        {
+          code += " ";
+          code += arg.value();
+        }
+
         code += "\n";
       }
 
